@@ -28,6 +28,16 @@ KINDS = {'CIAContribution': 1, 'SimpleCloudsContribution': 2}
 
 
 # ------------------------------------------------------------------------------------------- numpy oracle
+
+def _invalid_params(ctx, e):
+    """a parameter set the model itself rejects as invalid (InvalidModelException and subclasses) is outside every
+    property's quantifier: recorded in the malformed stream, never judged"""
+    from taurex.exceptions import InvalidModelException
+    if isinstance(e, InvalidModelException):
+        ctx.malformed_outcome('invalid-model-after-setters:' + type(e).__name__)
+        return True
+    return False
+
 def chords_old(rp, z, dz):
     n = len(z)
     rows = []
@@ -267,6 +277,8 @@ def eval_reuse(ctx, case):
             spec = apply_step(spec, m, step)
             obs = observe(m)
         except Exception as e:
+            if _invalid_params(ctx, e):
+                return
             ctx.violation('raises-after-parameter-change:' + type(e).__name__,
                           'model() raised %r after setting %s on a built model' % (e, sorted(step)), case)
             return
